@@ -9,9 +9,12 @@ Correspondence (real rpyc vs. Rpyc.Policy through the compiled driver `drv_polic
   read / written / deleted / called; the log (hasattr probes included, in order), whether an accessor or hook was
   reached, and the exception class otherwise, are compared with the model's answer line by line.
 * Isolation: seeded random histories of connections (opened through the real `Connection(...)` /
-  `Service._connect` with differing config dicts, classic-mode `SlaveService` connects, late `on_connect`, closes);
-  after every event every connection's `_config`, a panel of its decisions and `DEFAULT_CONFIG` are compared
-  with the model's world, and `DEFAULT_CONFIG` is compared by deep equality with a snapshot.
+  `Service._connect` with differing config dicts — literal ones and application dict OBJECTS that are edited
+  before and AFTER being passed and then reused for other connections —, classic-mode `SlaveService` connects,
+  late `on_connect`, closes, and the application editing `DEFAULT_CONFIG` itself (restored when the case ends));
+  after every event every connection's `_config` (read key by key), a panel of its decisions and `DEFAULT_CONFIG`
+  are compared with the model's world, and `DEFAULT_CONFIG` is compared by deep equality with a snapshot plus
+  the application's own edits.  A connection's configuration is the copy taken when it was opened.
 
 What the harness itself decides (trusted, see TRUSTED): the mapping from a canary class to the model's object
 description (which hooks the class defines = what `getattr(type(obj), "_rpyc_*attr", None)` returns; the set of
@@ -773,16 +776,44 @@ def gen_overlay(r):
     return ov
 
 
+def gen_env_overlay(r):
+    """a small edit of a settings dict / of DEFAULT_CONFIG: a few switches, sometimes the prefix or the safe list"""
+    ov = {}
+    for k in r.shuffle(list(SWITCH_KEYS))[:r.range(1, 3)]:
+        ov[k] = r.chance(1, 2)
+    if r.chance(1, 4):
+        ov["exposed_prefix"] = r.choice(HISTORY_PREFIXES)
+    if r.chance(1, 8):
+        ov["safe_attrs"] = sorted(r.choice([["foo"], ["_x", "next"], ["__secret__", "bar"]]))
+    if r.chance(1, 8):
+        ov[r.choice(OTHER_KEYS)] = r.chance(1, 2)
+    return ov
+
+
+N_DICTS = 2
+
+
 def gen_history(r):
+    """events: open (literal dict) / openwith (an application dict OBJECT that may be edited before and AFTER, and
+    reused) / slave (late on_connect) / close / edit (the application edits dict object d) / setdefault (the
+    application edits DEFAULT_CONFIG; restored when the case ends) / check"""
     slots = r.range(2, 5)
     state = ["fresh"] * slots
     evs = []
     for _ in range(r.range(3, 14)):
         i = r.below(slots)
         k = r.below(10)
-        if state[i] == "fresh":
+        e = r.below(12)
+        if e < 2:
+            evs.append(["edit", r.below(N_DICTS), gen_env_overlay(r) if r.chance(2, 3) else gen_overlay(r)])
+        elif e == 2:
+            evs.append(["setdefault", gen_env_overlay(r)])
+        elif state[i] == "fresh":
             kind = r.choice(["direct", "void", "slave", "slave", "custom"])
-            evs.append(["open", i, gen_overlay(r), kind])
+            if r.chance(1, 2):
+                evs.append(["openwith", i, r.below(N_DICTS), kind])
+            else:
+                evs.append(["open", i, gen_overlay(r), kind])
             state[i] = "live"
         elif state[i] == "live":
             if k < 3:
@@ -795,6 +826,13 @@ def gen_history(r):
         else:
             evs.append(["check"])
     return dict(kind="history", slots=slots, events=evs)
+
+
+def to_real_dict(ov):
+    d = dict(ov)
+    if "safe_attrs" in d:
+        d["safe_attrs"] = set(d["safe_attrs"])
+    return d
 
 
 def overlay_tokens(ov):
@@ -814,6 +852,7 @@ class HistoryRun(object):
     def __init__(self, hist):
         self.hist = hist
         self.conns = [None] * hist["slots"]
+        self.dicts = [dict() for _ in range(N_DICTS)]       # the application's settings-dict OBJECTS
         protocol, service, _h = rpyc_mods()
         self.protocol, self.service = protocol, service
 
@@ -826,11 +865,12 @@ class HistoryRun(object):
 
     def apply(self, ev):
         protocol, service = self.protocol, self.service
-        if ev[0] == "open":
+        if ev[0] in ("open", "openwith"):
             _o, i, ov, kind = ev
-            cfg = dict(ov)
-            if "safe_attrs" in cfg:
-                cfg["safe_attrs"] = set(cfg["safe_attrs"])
+            if ev[0] == "open":
+                cfg = to_real_dict(ov)
+            else:
+                cfg = self.dicts[ov]            # the OBJECT itself, not a copy: it may be edited later
             if kind == "direct":
                 self.conns[i] = protocol.Connection(service.VoidService(), DummyChannel(), cfg)
             elif kind == "void":
@@ -845,6 +885,10 @@ class HistoryRun(object):
             service.SlaveService().on_connect(self.conns[ev[1]])
         elif ev[0] == "close":
             self.conns[ev[1]].close()
+        elif ev[0] == "edit":
+            self.dicts[ev[1]].update(to_real_dict(ev[2]))
+        elif ev[0] == "setdefault":
+            protocol.DEFAULT_CONFIG.update(to_real_dict(ev[1]))       # restored by the caller when the case ends
         elif ev[0] == "check":
             pass
         else:
@@ -856,6 +900,15 @@ class HistoryRun(object):
             if ev[3] == "slave":
                 lines.append("policy slave %d" % ev[1])
             return lines
+        if ev[0] == "openwith":
+            lines = ["policy openwith %d %d" % (ev[1], ev[2])]
+            if ev[3] == "slave":
+                lines.append("policy slave %d" % ev[1])
+            return lines
+        if ev[0] == "edit":
+            return ["policy dict %d %s" % (ev[1], overlay_tokens(ev[2]))]
+        if ev[0] == "setdefault":
+            return ["policy setdefault " + overlay_tokens(ev[1])]
         if ev[0] == "slave":
             return ["policy slave %d" % ev[1]]
         if ev[0] == "close":
@@ -899,8 +952,11 @@ def history_lines(hist):
     want = [None] * len(lines)
     labels = ["setup"] * len(lines)
     try:
+        expected_default = copy.deepcopy(snapshot)
         for step, ev in enumerate(hist["events"]):
             run.apply(ev)
+            if ev[0] == "setdefault":
+                expected_default.update(to_real_dict(ev[1]))
             for l in run.model_lines(ev):
                 lines.append(l)
                 want.append(None)
@@ -912,9 +968,9 @@ def history_lines(hist):
             lines.append("policy wdflt")
             want.append(default_text())
             labels.append("step %d: DEFAULT_CONFIG" % step)
-            if protocol.DEFAULT_CONFIG != snapshot:
+            if protocol.DEFAULT_CONFIG != expected_default:
                 lines.append("policy wdflt")
-                want.append("DEFAULT_CONFIG is no longer deep-equal to its snapshot")
+                want.append("DEFAULT_CONFIG is no longer deep-equal to its snapshot (plus the application's own edits)")
                 labels.append("step %d: DEFAULT_CONFIG deep equality" % step)
             for i in range(hist["slots"]):
                 c = run.conns[i]
@@ -969,7 +1025,7 @@ def outcome_class(line, text, twin):
 def correspondence(ctx):
     c = Corr()
     prefixes = ctx.budget(PREFIXES_QUICK, PREFIXES_THOROUGH)
-    n_hist = ctx.budget(600, 6000)
+    n_hist = ctx.budget(900, 6000)
     c.rule = (
         "decision table enumerated COMPLETELY (thorough tier: again with a caller-supplied safe list for two prefixes): "
         "128 settings of the seven attribute switches x prefixes %r x %d name "
@@ -980,8 +1036,9 @@ def correspondence(ctx):
         "restricted views, Service subclass, hook set to None, instance-level hook) x getattr/setattr/delattr/callattr "
         "(+ ctxexit on __exit__, + cmp on 5 type-level shapes), each on the real Connection._handle_* with a fresh "
         "logging canary; compared: ordered log of attributes read/written/deleted/called, accessor-or-hook reached, "
-        "exception class. Then %d seeded connection histories (open with random config dicts / classic SlaveService "
-        "connect / late on_connect / close) comparing every connection's config, %d panel decisions per live "
+        "exception class. Then %d seeded connection histories (open with literal config dicts or with application dict "
+        "objects that are edited after use and reused / classic SlaveService connect / late on_connect / close / the "
+        "application editing DEFAULT_CONFIG mid-history) comparing every connection's config, %d panel decisions per live "
         "connection and DEFAULT_CONFIG after every event. Non-trivial: anything but 'operation kind disabled, no "
         "probe, AttributeError'. Distinct: (prefix, name class, shape, request, output with names abstracted to "
         "name/twin) for the table; (step kind, observation kind, output) for histories."
@@ -1069,10 +1126,10 @@ def correspondence(ctx):
             bad = compare_history(hist, o, want, labels, lines)
             c.evaluations += 1
             n_checks += sum(1 for w in want if w is not None)
-            kinds = tuple(sorted(set(e[0] + (":" + e[3] if e[0] == "open" else "") for e in hist["events"])))
+            kinds = tuple(sorted(set(e[0] + (":" + e[3] if e[0] in ("open", "openwith") else "") for e in hist["events"])))
             c.count("history:len=%d" % len(hist["events"]))
             for e in hist["events"]:
-                c.count("history-event:" + e[0] + (":" + e[3] if e[0] == "open" else ""))
+                c.count("history-event:" + e[0] + (":" + e[3] if e[0] in ("open", "openwith") else ""))
             for w, lab in zip(want, labels):
                 if w is not None:
                     c.signatures.add(("history", lab.split(": ")[1].split(" ")[0], w if len(w) < 120 else hash(w)))
@@ -1297,7 +1354,8 @@ def oracle_history(hist):
     try:
         base = fresh_default_decisions()
         for step, ev in enumerate(hist["events"]):
-            actor = ev[1] if ev[0] != "check" else None
+            # edits of an application dict / of DEFAULT_CONFIG belong to no connection: EVERY open connection is "other"
+            actor = ev[1] if ev[0] in ("open", "openwith", "slave", "close") else None
             before = {}
             for j, c in enumerate(run.conns):
                 if c is not None and not c.closed and j != actor:
@@ -1307,9 +1365,14 @@ def oracle_history(hist):
                 after = run.decisions(j)
                 if after != dec:
                     k = [i for i in range(len(dec)) if dec[i] != after[i]][0]
-                    return ("step %d (%s on connection %s) changed what connection %d allows: %s %s %r: before %r, after %r"
-                            % (step, ev[0], actor, j, PANEL[k][0], PANEL[k][1], PANEL[k][2], dec[k], after[k]))
+                    what = ("%s on connection %s" % (ev[0], actor) if actor is not None else
+                            "the application editing its settings dict %s after use" % ev[1] if ev[0] == "edit" else
+                            "the application editing DEFAULT_CONFIG" if ev[0] == "setdefault" else ev[0])
+                    return ("step %d (%s) changed what the already-open connection %d allows: %s %s %r: before %r, after %r"
+                            % (step, what, j, PANEL[k][0], PANEL[k][1], PANEL[k][2], dec[k], after[k]))
             now = fresh_default_decisions()
+            if ev[0] == "setdefault":
+                base = now            # the application changed the defaults itself: later connections start from them
             if now != base:
                 k = [i for i in range(len(base)) if base[i] != now[i]][0]
                 return ("after step %d (%s on connection %s) a connection opened with no config decides %s %s %r as %r, "
@@ -1334,9 +1397,9 @@ def shrink_history(hist, msg):
             opened = set()
             ok = True
             for e in cand:
-                if e[0] == "open":
+                if e[0] in ("open", "openwith"):
                     opened.add(e[1])
-                elif e[0] != "check" and e[1] not in opened:
+                elif e[0] in ("slave", "close") and e[1] not in opened:
                     ok = False
             if not ok:
                 continue
@@ -1353,7 +1416,7 @@ def shrink_history(hist, msg):
 
 def case_signature(case, msg):
     if case.get("kind") == "history":
-        return "history:" + msg.split(" changed")[0].split("(")[-1][:40]
+        return "history:" + msg.split(") changed")[0].split("(")[-1][:60]
     return "input:%s:%s:%s" % (case.get("req"), case.get("shape"), msg.split(";")[0][:50])
 
 
